@@ -378,7 +378,7 @@ def coq_out(op, out):
 
 
 def coq_state(rs):
-    gs = []
+    gs, tl = [], []
     for gi, (sid, g, u, c) in enumerate(rs.grants):
         toks = []
         for t in g.issued_token:
@@ -386,17 +386,18 @@ def coq_state(rs):
             based = rs.tokens.index(t.based_on) if t.based_on in rs.tokens else None
             mx = t.usage_rules.get("max_usage")
             mints = t.usage_rules.get("supports_minting")
-            toks.append("(mkTok %s %s %s %s %s %s %s %s %s)" % (
-                coq_nat(idx), MINTS[t.token_class], "None" if based is None else "(Some %s)" % coq_nat(based),
+            toks.append("(%s, mkTok %s %s %s %s %s %s %s %s %s)" % (
+                coq_nat(idx), coq_nat(gi), MINTS[t.token_class], "None" if based is None else "(Some %s)" % coq_nat(based),
                 coq_z(t.used), "None" if mx is None else "(Some %s)" % coq_z(mx),
                 "None" if mints is None else "(Some %s)" % coq_list([MINTS[m] for m in mints], "tcls"),
                 coq_bool(bool(t.revoked)), coq_z(t.expires_at), coq_strs(t.scope)))
         areq = g.authorization_request
-        gs.append("(mkGrant %s %s %s %s %s %s %s %s %s)" % (
+        gs.append("(mkGrant %s %s %s %s %s %s %s %s)" % (
             coq_str(u), coq_str(c), coq_bool(bool(g.revoked)), coq_z(g.expires_at), coq_strs(g.scope),
             coq_strs(areq.get("scope", [])), coq_str(areq.get("redirect_uri", "")),
-            coq_z(g.authentication_event["valid_until"]), coq_list(toks, "token")))
-    return coq_list(gs, "grant")
+            coq_z(g.authentication_event["valid_until"])))
+        tl.append(coq_list(toks, "(nat * token)"))
+    return "(%s, %s)" % (coq_list(gs, "grant"), coq_list(tl, "list (nat * token)"))
 
 
 SCOPES = ["openid", "profile", "email", "address", "phone", "offline_access", "custom"]
